@@ -209,7 +209,12 @@ fn payload_sizes(rig: &Rig, v6: bool, l4hdr: usize) -> Vec<usize> {
             }
         }
     }
-    s.into_iter().filter(|&n| n <= 2000).collect()
+    let up: Vec<usize> = s.into_iter().filter(|&n| n <= 2000).collect();
+    // ascending, then descending: a packet that follows a LARGER one finds stale bytes of its
+    // predecessor in the interface's buffers
+    let mut v = up.clone();
+    v.extend(up.iter().rev().skip(1));
+    v
 }
 
 // ------------------------------------------------------------------------------------------
@@ -219,9 +224,21 @@ fn payload_sizes(rig: &Rig, v6: bool, l4hdr: usize) -> Vec<usize> {
 fn sc_udp_sizes(rig: &mut Rig, v6: bool, variant: usize) {
     rig.teach_neighbors();
     let bind = if variant == 3 { Some(ipa(&me(v6))) } else { None };
-    let h = udp_socket(rig, 7000, bind);
+    // 6LoWPAN NHC has short forms for ports 0xf0b0..0xf0bf (4 bit) and 0xf000..0xf0ff (8 bit)
+    let (sport, dport): (u16, u16) = match variant {
+        6 => (0xf0b1, 0xf0b2),
+        7 => (0xf011, 9000),
+        8 => (7000, 0xf0fe),
+        _ => (7000, 9000),
+    };
+    let h = udp_socket(rig, sport, bind);
     let dst: Vec<u8> = match (variant, v6) {
-        (0, _) | (3, _) => peer(v6),
+        (0, _) | (3, _) | (6, _) | (7, _) | (8, _) => peer(v6),
+        // multicast destinations that take the 32-bit, 48-bit and the uncompressed IPHC form
+        (9, true) => GROUP6B.to_vec(),
+        (10, true) => solicited(&PEER6).to_vec(),
+        (11, true) => vec![0xff, 0x0e, 0, 1, 0, 0, 0, 0, 0, 0, 0, 0, 0, 0, 0, 1],
+        (9, false) | (10, false) | (11, false) => GROUP4B.to_vec(),
         (1, true) => PEER6_ULA.to_vec(),
         (1, false) => OFF4.to_vec(),
         (2, true) => GROUP6.to_vec(),
@@ -233,8 +250,8 @@ fn sc_udp_sizes(rig: &mut Rig, v6: bool, variant: usize) {
     };
     for n in payload_sizes(rig, v6, 8) {
         let data = pat(n, 1);
-        let r = rig.sockets.get_mut::<udp::Socket>(h).send_slice(&data, IpEndpoint::new(ipa(&dst), 9000));
-        rig.note(|| format!("udp send {} octets to {:?} -> {:?}", n, dst, r));
+        let r = rig.sockets.get_mut::<udp::Socket>(h).send_slice(&data, IpEndpoint::new(ipa(&dst), dport));
+        rig.note(|| format!("udp send {} octets from port {:#x} to {:?} port {:#x} -> {:?}", n, sport, dst, dport, r));
         rig.settle();
     }
 }
@@ -710,7 +727,7 @@ fn sc_slaac(rig: &mut Rig, _v6: bool, variant: usize) {
     let mut dst = [0u8; 16];
     dst[..8].copy_from_slice(&pfx);
     dst[15] = 0x42;
-    for d in [dst.to_vec(), OFF6.to_vec()] {
+    for d in [OFF6.to_vec(), dst.to_vec()] {
         let _ = rig.sockets.get_mut::<udp::Socket>(h).send_slice(&pat(20, 13), IpEndpoint::new(ipa(&d), 9000));
         rig.settle();
         rig.advance(1_100_000);
@@ -1056,7 +1073,7 @@ fn v6_only(m: Medium, v6: bool, v: usize) -> Option<Tweak> {
 
 pub fn scenarios() -> Vec<Scenario> {
     vec![
-        Scenario { name: "udp-sizes", variants: 6, setup: std_setup, run: sc_udp_sizes },
+        Scenario { name: "udp-sizes", variants: 12, setup: std_setup, run: sc_udp_sizes },
         Scenario { name: "udp-unresolved-neighbor", variants: 2, setup: linked_only, run: sc_udp_unresolved },
         Scenario { name: "icmp-socket-echo-request", variants: 2, setup: std_setup, run: sc_icmp_echo_out },
         Scenario { name: "echo-request-in", variants: 6, setup: alias_last_echo, run: sc_echo_in },
